@@ -140,7 +140,7 @@ def load_known():
         with open(KNOWN_FILE, encoding="utf-8") as fd:
             for ln in fd:
                 ln = ln.strip()
-                if ln and not ln.startswith("#"):
+                if ln.startswith("{"):  # '#' comments and 'fixed: property=... <commit> <what>' lines suppress nothing
                     entries.append(json.loads(ln))
     return entries
 
